@@ -1,5 +1,6 @@
 //! mrl-harness: drives the real mrecordlog (built from /repo's working tree with
 //! --cfg mrecordlog_verif) and records traces for validation against the TLA+ specification.
+mod alloc;
 mod crash;
 mod damage;
 mod disk;
@@ -21,6 +22,9 @@ use std::time::Duration;
 use serde_json::{json, Value};
 
 use crate::script::Script;
+
+#[global_allocator]
+static GLOBAL: alloc::Counting = alloc::Counting;
 
 pub struct Args {
     pub cmd: String,
